@@ -50,3 +50,105 @@ def hygiene(repo, rep, prop, prefixes, falsy=True):
     if falsy:
         rep.rule(f"R-{prop}-h2", "no numeric parameter is defaulted with `p or <non-zero constant>` (a caller's 0 would be replaced)")
         falsy_zero_defaulting(repo, rep, f"R-{prop}-h2", prefixes)
+
+
+# ---------------------------------------------------------------------------------------------------------------------
+def _truthy_guard_sites(fn_node):
+    """`if p and q and p <= q: raise` - parameters tested by truthiness in a validation guard that also compares them."""
+    a = fn_node.args
+    params = {x.arg for x in a.posonlyargs + a.args + a.kwonlyargs} - {"self", "cls"}
+    out = []
+    for s in ast.walk(fn_node):
+        if not (isinstance(s, ast.If) and s.body and all(isinstance(x, ast.Raise) for x in s.body)):
+            continue
+        t = s.test
+        if not (isinstance(t, ast.BoolOp) and isinstance(t.op, ast.And)):
+            continue
+        bare = [v.id for v in t.values if isinstance(v, ast.Name) and v.id in params]
+        cmpn = {x.id for v in t.values if isinstance(v, ast.Compare) and not any(isinstance(o, (ast.Is, ast.IsNot)) for o in v.ops)
+                for x in ast.walk(v) if isinstance(x, ast.Name)}
+        hit = [b for b in bare if b in cmpn]
+        if hit:
+            out.append((s, hit))
+    return out
+
+
+def truthiness_guards(repo, rep, rule, prefixes):
+    probe = ast.parse("def f(a=None, b=None):\n    if a and b and b <= a:\n        raise ValueError('x')\n    if a is not None and b is not None and b <= a:\n        raise ValueError('y')").body[0]
+    if len(_truthy_guard_sites(probe)) != 1:
+        raise AnalysisError(f"{rule}: detector does not fire exactly on its positive example")
+    n = ng = 0
+    for fi in repo.all_funcs():
+        if not fi.module.name.startswith(tuple(prefixes)):
+            continue
+        n += 1
+        for s, hit in _truthy_guard_sites(fi.node):
+            rep.fail(rule, fi.file, s.lineno, fi.qualname, f"if {unparse(s.test)[:90]}: raise",
+                     f"the validation tests {hit} by truthiness: a limit of 0 (north, 0 Hz) is falsy, so the comparison is skipped and an empty or reversed band is "
+                     "processed silently instead of being rejected; test `is not None`", anchor=f"truthy-guard:{fi.short}")
+        ng += sum(1 for s in ast.walk(fi.node) if isinstance(s, ast.If) and s.body and all(isinstance(x, ast.Raise) for x in s.body))
+    rep.ok(rule, "scope", f"{n} functions, {ng} raising guards", "no numeric parameter is tested by truthiness in a guard that compares it")
+    rep.floor(rule, "raising guards examined", ng, 5)
+
+
+# ---------------------------------------------------------------------------------------------------------------------
+def _isclose_sites(tree):
+    out = []
+    for c in ast.walk(tree):
+        if isinstance(c, ast.Call) and ast.unparse(c.func).split(".")[-1] in ("isclose", "allclose") and len(c.args) >= 2:
+            kw = {k.arg: k.value for k in c.keywords}
+            atol = kw.get("atol", kw.get("abs_tol"))
+            is_math = ast.unparse(c.func).startswith("math.")
+            zero_atol = atol is not None and isinstance(atol, ast.Constant) and atol.value == 0
+            if is_math and atol is None:
+                # math.isclose has abs_tol = 0 by default: purely relative -> scale free (but never true against 0)
+                continue
+            if not zero_atol:
+                out.append(c)
+    return out
+
+
+def hidden_tolerance(repo, rep, rule, prefixes):
+    probe = ast.parse("a = np.isclose(q, 0.0)\nb = np.isclose(q, r, atol=0)\nc = math.isclose(q, r)")
+    if len(_isclose_sites(probe)) != 1:
+        raise AnalysisError(f"{rule}: detector does not fire exactly on its positive example")
+    n = 0
+    for fi in repo.all_funcs():
+        if not fi.module.name.startswith(tuple(prefixes)):
+            continue
+        n += 1
+        for c in _isclose_sites(fi.node):
+            rep.fail(rule, fi.file, c.lineno, fi.qualname, unparse(c)[:100],
+                     "np.isclose / allclose carry a default ABSOLUTE tolerance of 1e-8: on a quantity that scales with the spectrum (a density, a slope, a curvature) "
+                     "the test changes its answer when the spectrum is multiplied by a constant, so periods / shape parameters are not scale invariant",
+                     anchor=f"hidden-atol:{fi.short}")
+    rep.ok(rule, "statistics", f"{n} functions", "no isclose / allclose with a non-zero absolute tolerance")
+    rep.floor(rule, "functions scanned for hidden tolerances", n, 60)
+
+
+# ---------------------------------------------------------------------------------------------------------------------
+def float_keyed_collections(repo, rep, rule, prefixes):
+    """Partitions are never collected in a dict / set keyed by a computed statistic: two partitions with bit-identical Hs (twin systems) collide and
+    one of them - with all its energy - disappears."""
+    def sites(tree):
+        out = []
+        for d in ast.walk(tree):
+            if isinstance(d, ast.DictComp) and isinstance(d.key, ast.Call):
+                out.append(d)
+            if isinstance(d, ast.Assign) and len(d.targets) == 1 and isinstance(d.targets[0], ast.Subscript) and isinstance(d.targets[0].slice, ast.Call) \
+                    and ast.unparse(d.targets[0].slice.func).split(".")[-1] in ("hs", "float", "sum", "max"):
+                out.append(d)
+        return out
+    if len(sites(ast.parse("h = {hs(p): p for p in parts}\ng = {k: hs(p) for k, p in x}"))) != 1:
+        raise AnalysisError(f"{rule}: detector does not fire exactly on its positive example")
+    n = 0
+    for fi in repo.all_funcs():
+        if not fi.module.name.startswith(tuple(prefixes)):
+            continue
+        n += 1
+        for d in sites(fi.node):
+            rep.fail(rule, fi.file, d.lineno, fi.qualname, unparse(d)[:100],
+                     "a collection keyed by a computed value: items whose keys coincide (two partitions of exactly equal Hs) overwrite each other, so a basin "
+                     "the watershed found is dropped and its bins belong to no partition", anchor=f"value-keyed:{fi.short}")
+    rep.ok(rule, "partition code", f"{n} functions", "no dict keyed by a computed statistic")
+    rep.floor(rule, "functions scanned", n, 15)
